@@ -11,7 +11,8 @@
     the end-to-end behaviour by the Go oracle of harness/cmd/c01. *)
 From Coq Require Import List NArith ZArith Bool.
 Import ListNotations.
-Require Import Aurora.Base.Corr Aurora.Consts Aurora.C02.Model Aurora.C07.Model Aurora.C07.Corr Aurora.C01.Model.
+Require Import Aurora.Base.Corr Aurora.Consts Aurora.C02.Model Aurora.C07.Model Aurora.C01.Model.
+Require Export Aurora.C07.Corr.
 Local Open Scope Z_scope.
 
 Inductive case :=
